@@ -219,22 +219,24 @@ def clone (X : Ctx) : VM VSt := do
         push X e'))
     pure o
 
+/-- the body of `MiniVec::resize`, while `value` is still owned by the call -/
+def resizeBody (X : Ctx) (newLen : Nat) (value : Elem) : VM Unit := do
+  let r ← lift X (Gen.resize_pre X.env newLen)
+  match r with
+  | .ret _ => pure ()
+  | .cont env =>
+    if env.v_new_len = env.v_len then pure ()
+    else if env.v_new_len > env.v_len then do
+      let n := env.v_new_len - env.v_len
+      reserve X n
+      forN n (fun _ => do
+        let e ← cloneElem X value
+        push X e)
+    else truncate X env.v_new_len
+
 /-- `MiniVec::resize` -/
 def resize (X : Ctx) (newLen : Nat) (value : Elem) : VM Unit :=
-  guarded (do
-    let r ← lift X (Gen.resize_pre X.env newLen)
-    match r with
-    | .ret _ => pure ()
-    | .cont env =>
-      if env.v_new_len = env.v_len then pure ()
-      else if env.v_new_len > env.v_len then do
-        let n := env.v_new_len - env.v_len
-        reserve X n
-        forN n (fun _ => do
-          let e ← cloneElem X value
-          push X e)
-      else truncate X env.v_new_len)
-    (dropElem X value)
+  guarded (resizeBody X newLen value) (dropElem X value)
 
 /-- `MiniVec::resize_with`; `g k` is the value produced by the k-th call of the generator -/
 def resize_with (X : Ctx) (newLen : Nat) (g : Nat → Int) : VM Unit := do
